@@ -740,6 +740,9 @@ def dotted_id_tests(ctx, rid: str) -> None:
                 continue
             n += 1
             has_sep = False
+            if isinstance(arg, ast.Name):
+                from sa.util import expand_names as _en
+                arg = _en(f, arg)          # a hoisted loop-invariant:  dotted = "." + t ... id.endswith(dotted)
             if isinstance(arg, ast.JoinedStr):
                 first, last = arg.values[0], arg.values[-1]
                 has_sep = (x.func.attr == "startswith" and isinstance(last, ast.Constant) and str(last.value).endswith(".")) or \
